@@ -3,7 +3,7 @@
    to the handler, termination with propagate_exit_signals; after fix commit 84e81b9.  One operation = one API call
    run to quiescence.  The correspondence run drives a real Node with instrumented processes. *)
 From EDP Require Import Base.Bytes Term.Term Order.Cmp Codec.Decode Dist.Control Node.Node Node.NodeFacts Gen.LockScope.
-From EDP Require Conc.Interleave Conc.RegisterConc Node.GenServer Node.GenServerFacts.
+From EDP Require Conc.Interleave Conc.RegisterConc Node.GenServer Node.GenServerFacts Node.GenEvent Node.GenEventFacts.
 Open Scope N_scope.
 
 (* accepted for a live process: handed to it exactly once, after everything it received before; nobody else is
@@ -124,6 +124,35 @@ Example C18_gen_server_example :
       GenServer.GReg (TTuple [TAtom GenServer.n_gen_call; TPid (c 1); TInt 3]); call 3 8 (TInt 4); call 2 9 (TInt 5)])
   = [(c 1, TTuple [TRef [99] 1 [7] None; TTuple [TAtom GenServer.n_ok; TInt 1]]);
      (c 2, TTuple [TRef [99] 1 [9] None; TTuple [TAtom GenServer.n_ok; TInt 5]])].
+Proof. vm_compute. reflexivity. Qed.
+
+(* ---- gen_event.rs: the manager answers every call, every which_handlers request and every sync_notify once, to the
+   process that asked, with the request's reference (a call to a handler that is missing or fails is answered `error`);
+   nothing else is ever sent.  For every message sequence, every handler behaviour (including handlers that remove or
+   swap themselves), every set of installed handlers and every set of live callers *)
+Theorem C18_gen_event_replies_exact : forall H on_init on_event on_call on_info id_of live ms s, exists rs,
+  GenEvent.e_sent (GenEvent.erun H on_init on_event on_call on_info id_of live s ms) = GenEvent.e_sent s ++ rs /\
+  Forall2 GenEventFacts.pays (flat_map (GenEventFacts.owed live) ms) rs.
+Proof. intros. apply GenEventFacts.replies_exact. Qed.
+
+Theorem C18_gen_event_one_reply_per_request : forall live m, (length (GenEventFacts.owed live m) <= 1)%nat.
+Proof. exact GenEventFacts.owed_at_most_one. Qed.
+
+(* a handler that counts events, asked for its count after two notifications, one of them synchronous; a call to a
+   handler that is not installed; a which_handlers request *)
+Example C18_gen_event_example :
+  let c k := {| pnode := [99]; pnum := k; pserial := 0; pcreation := 1; ploc := None |} in
+  let fr k r := TTuple [TPid (c k); TRef [99] 1 [r] None] in
+  let s0 := GenEvent.demo_add GenEvent.demo_einit {| GenEvent.dh_id := TAtom [108]; GenEvent.dh_count := 0 |} (TAtom [120]) in
+  GenEvent.e_sent (fold_left (GenEvent.demo_estep [c 1; c 2]) 
+     [GenEvent.EReg None (TTuple [TAtom GenEvent.n_gen_notify; TInt 1]);
+      GenEvent.EReg (Some (c 2)) (TTuple [TAtom GenEvent.n_gen_sync_notify; TInt 2]);
+      GenEvent.EReg None (TTuple [TAtom GenServer.n_gen_call; fr 1 7; TAtom [108]; TAtom GenEvent.n_count]);
+      GenEvent.EReg None (TTuple [TAtom GenServer.n_gen_call; fr 2 8; TAtom [109]; TAtom GenEvent.n_count]);
+      GenEvent.EReg None (TTuple [TAtom GenEvent.n_gen_which; fr 3 9]);
+      GenEvent.EReg None (TTuple [TAtom GenEvent.n_gen_which; fr 1 9])] s0)
+  = [(c 2, TAtom GenServer.n_ok); (c 1, TTuple [TRef [99] 1 [7] None; TInt 2]);
+     (c 2, TTuple [TRef [99] 1 [8] None; TAtom GenEvent.n_error]); (c 1, TTuple [TRef [99] 1 [9] None; TList [TAtom [108]]])].
 Proof. vm_compute. reflexivity. Qed.
 
 Check C18_exit_notices.
